@@ -79,7 +79,8 @@ def gen_pos(rng, tvs, free_d=1):
     if r < 0.75:
         sp = 'builtin' if rng.random() < 0.3 else 'typing'
         shape = rng.choice(['list', 'list', 'set', 'seq', 'dictv', 'dictv', 'dictk', 'tup2', 'tup2', 'tupi', 'tupvar', 'opt', 'opt',
-                            'union', 'union', 'listlist', 'dictlist', 'tupS', 'optpipe', 'union3'])
+                            'union', 'union', 'listlist', 'dictlist', 'tupS', 'optpipe', 'union3',
+                            'optlist', 'optlist', 'uniondict', 'opttup', 'uniontupvar', 'listoptlist'])
         leaf = lambda: ['cls', rng.choice(['int', 'str', 'float', ['user', [0]]])]
         if shape == 'list': return ['gen', sp, 'List', [t]]
         if shape == 'set': return ['gen', sp, rng.choice(['Set', 'FrozenSet']), [t]]
@@ -93,6 +94,15 @@ def gen_pos(rng, tvs, free_d=1):
         if shape == 'optpipe': return ['union', 'pipe', [t, ['cls', 'NoneType']]]
         if shape == 'union': return ['union', 'typing', [t, leaf()]]
         if shape == 'union3': return ['union', 'typing', [leaf(), t, ['cls', 'NoneType']]]
+        # a generic alternative with TypeVars inside Optional / Union (what it binds must stay bound)
+        if shape == 'optlist':
+            members = [['gen', sp, 'List', [t]], ['cls', 'NoneType']]
+            if rng.random() < 0.3: members.reverse()
+            return ['union', 'typing', members]
+        if shape == 'uniondict': return ['union', 'typing', [['gen', sp, 'Dict', [['cls', 'str'], t]], ['cls', rng.choice(['int', 'float'])]]]
+        if shape == 'opttup': return ['union', 'typing', [['gen', sp, 'Tuple', [t, t]], ['cls', 'NoneType']]]
+        if shape == 'uniontupvar': return ['union', 'typing', [['cls', 'str'], ['tuplevar', sp, t], ['cls', 'NoneType']]]
+        if shape == 'listoptlist': return ['gen', 'typing', 'List', [['union', 'typing', [['gen', 'typing', 'List', [t]], ['cls', 'NoneType']]]]]
         if shape == 'listlist': return ['gen', 'typing', 'List', [['gen', sp, 'List', [t]]]]
         if shape == 'dictlist': return ['gen', 'typing', 'Dict', [['cls', 'str'], ['gen', 'typing', 'List', [t]]]]
         if shape == 'tupS': return ['gen', 'typing', 'Tuple', [t, T(rng.choice(tvs))]]
